@@ -140,6 +140,17 @@ class DFA:
         # old accepting states are no longer accepting; original transitions out of them stay
         return DFA.from_nfa(n + len(w) + 1, delta, eps, 0, {chain[-1]})
 
+    def concat(self, other):
+        """{ x + y | x in L, y in other }"""
+        n, delta = self._as_nfa()
+        m, delta_o = other._as_nfa()
+        for (q, a), T in delta_o.items():
+            delta.setdefault((q + n, a), set()).update({t + n for t in T})
+        eps = {}
+        for q in self.acc:
+            eps.setdefault(q, set()).add(n)        # other's start state is its state 0
+        return DFA.from_nfa(n + m, delta, eps, 0, {q + n for q in other.acc})
+
     def prepend_word(self, w):
         """{ w + x | x in L }"""
         n, delta = self._as_nfa()
